@@ -198,11 +198,19 @@ func shardMuts() []hmut {
 		{"name-short", func(lv *level, l *lnk) { l.Name = str((*l.Name)[:padLen(lv.fan)-1]) }},
 		{"name-prefix-only", func(lv *level, l *lnk) { l.Name = str((*l.Name)[:padLen(lv.fan)]) }},
 		{"name-prefix+1", func(lv *level, l *lnk) { l.Name = str((*l.Name)[:padLen(lv.fan)] + "x") }},
-		{"name-nonhex", func(lv *level, l *lnk) { l.Name = str(strings.Repeat("Z", padLen(lv.fan)) + (*l.Name)[padLen(lv.fan):]) }},
-		{"name-lowerhex", func(lv *level, l *lnk) { l.Name = str(strings.ToLower((*l.Name)[:padLen(lv.fan)]) + (*l.Name)[padLen(lv.fan):]) }},
+		{"name-nonhex", func(lv *level, l *lnk) {
+			l.Name = str(strings.Repeat("Z", padLen(lv.fan)) + (*l.Name)[padLen(lv.fan):])
+		}},
+		{"name-lowerhex", func(lv *level, l *lnk) {
+			l.Name = str(strings.ToLower((*l.Name)[:padLen(lv.fan)]) + (*l.Name)[padLen(lv.fan):])
+		}},
 		{"name-other-bucket", func(lv *level, l *lnk) { l.Name = str(prefix(lv.fan, (lv.idx+1)%lv.fan) + (*l.Name)[padLen(lv.fan):]) }},
-		{"name-bucket-beyond-fanout", func(lv *level, l *lnk) { l.Name = str(strings.Repeat("F", padLen(lv.fan)+1) + (*l.Name)[padLen(lv.fan):]) }},
-		{"name-multibyte-across-prefix", func(lv *level, l *lnk) { l.Name = str(strings.Repeat("é", padLen(lv.fan))[:padLen(lv.fan)*2-1] + "é") }},
+		{"name-bucket-beyond-fanout", func(lv *level, l *lnk) {
+			l.Name = str(strings.Repeat("F", padLen(lv.fan)+1) + (*l.Name)[padLen(lv.fan):])
+		}},
+		{"name-multibyte-across-prefix", func(lv *level, l *lnk) {
+			l.Name = str(strings.Repeat("é", padLen(lv.fan))[:padLen(lv.fan)*2-1] + "é")
+		}},
 		{"name-not-utf8", func(lv *level, l *lnk) { l.Name = str(string(rep(0xff, padLen(lv.fan)+2))) }},
 		{"name-nul", func(lv *level, l *lnk) { l.Name = str(string(rep(0, padLen(lv.fan)+1))) }},
 		{"name-4k", func(lv *level, l *lnk) { l.Name = str((*l.Name)[:padLen(lv.fan)] + strings.Repeat("n", 4096)) }},
@@ -616,7 +624,7 @@ func hostileKids() []struct {
 		{"child-raw-claims-more", func(w *world) kid { k := w.leafRaw([]byte("abc")); k.size, k.stored = 10, 10; return k }},
 		{"child-raw-claims-less", func(w *world) kid { k := w.leafRaw([]byte("abcdef")); k.size, k.stored = 2, 2; return k }},
 		{"child-raw-claims-zero", func(w *world) kid { k := w.leafRaw([]byte("abcdef")); k.size, k.stored = 0, 0; return k }},
-		{"child-raw-claims-negative", func(w *world) kid { k := w.leafRaw([]byte("abc")); k.size, k.stored = 1<<63 + 1, 1<<63 + 1; return k }},
+		{"child-raw-claims-negative", func(w *world) kid { k := w.leafRaw([]byte("abc")); k.size, k.stored = 1<<63+1, 1<<63+1; return k }},
 		{"child-pb-claims-more", func(w *world) kid { k := w.leafPB([]byte("abc")); k.size = 10; return k }},
 		{"child-pb-claims-less", func(w *world) kid { k := w.leafPB([]byte("abcdef")); k.size = 2; return k }},
 		{"child-pb-filesize-lies", func(w *world) kid {
@@ -645,8 +653,12 @@ func runFiles(r *vp.Run) {
 		name string
 		mk   func(w *world) []kid
 	}{
-		{"pb", func(w *world) []kid { return []kid{w.leafPB([]byte("one")), w.leafPB([]byte("three")), w.leafPB([]byte("fiver"))} }},
-		{"raw", func(w *world) []kid { return []kid{w.leafRaw([]byte("one")), w.leafRaw([]byte("three")), w.leafRaw([]byte("fiver"))} }},
+		{"pb", func(w *world) []kid {
+			return []kid{w.leafPB([]byte("one")), w.leafPB([]byte("three")), w.leafPB([]byte("fiver"))}
+		}},
+		{"raw", func(w *world) []kid {
+			return []kid{w.leafRaw([]byte("one")), w.leafRaw([]byte("three")), w.leafRaw([]byte("fiver"))}
+		}},
 		{"mixed", func(w *world) []kid {
 			return []kid{w.leafRaw([]byte("one")), w.leafPB([]byte("three")), w.interior([]kid{w.leafPB([]byte("x")), w.leafRaw([]byte("yz"))}, nil), w.leafRaw(nil)}
 		}},
@@ -859,7 +871,9 @@ func runDirsAndTypes(r *vp.Run) {
 		{"pb", func(w *world) []lnk {
 			return []lnk{unnamed(w.leafPB([]byte("abc")).c, 11), unnamed(w.leafPB(nil).c, 8)}
 		}},
-		{"named", func(w *world) []lnk { return []lnk{named(w.raw([]byte("abc")), "0abc"), named(w.leafPB([]byte("de")).c, "1")} }},
+		{"named", func(w *world) []lnk {
+			return []lnk{named(w.raw([]byte("abc")), "0abc"), named(w.leafPB([]byte("de")).c, "1")}
+		}},
 		{"nameless-no-tsize", func(w *world) []lnk { return []lnk{{C: w.raw([]byte("abc"))}, {C: w.leafPB([]byte("de")).c}} }},
 		{"missing", func(w *world) []lnk {
 			return []lnk{unnamed(gone(cid.Raw, "t"), 3), named(gone(cid.DagProtobuf, "t"), "0")}
